@@ -117,6 +117,15 @@ Proof.
     apply Nat.eqb_eq in Hn. rewrite Hn. reflexivity.
 Qed.
 
+(* the initialiser of the LAST declaration, or none if the last declaration is bare — whatever earlier declarations said *)
+Corollary redecl_last_initialiser ds n z :
+  (forall a b, In a ds -> In b ds -> d_name a = n -> d_name b = n -> d_sig a = d_sig b) ->
+  prog_get_relation n ds = Some z ->
+  initialisers_emitted n ds = match d_init z with Some e => [e] | None => [] end.
+Proof.
+  intros Hsig Hget. unfold initialisers_emitted. rewrite (redecl_last_wins ds n z Hsig Hget). cbn. apply app_nil_r.
+Qed.
+
 Lemma redecl_undeclared ds n : prog_get_relation n ds = None -> fields_named n ds = [].
 Proof.
   intros Hget. unfold fields_named.
@@ -416,6 +425,13 @@ Example redecl_example :
   prog_get_relation 0 ds = Some {| d_name := 0; d_sig := 5; d_init := None |}
   /\ map d_init (fields_named 0 ds) = [None] /\ length (hir_relations ds) = 2%nat.
 Proof. vm_compute. repeat split. Qed.
+
+(* relation r = e0; relation r;   (initialised, then bare): nothing is assigned, r starts empty *)
+Example redecl_init_then_bare :
+  let ds := [ {| d_name := 0; d_sig := 5; d_init := Some 7%nat |}; {| d_name := 0; d_sig := 5; d_init := None |} ] in
+  initialisers_emitted 0 ds = [] /\
+  initialisers_emitted 0 (rev ds) = [7%nat].
+Proof. vm_compute. split; reflexivity. Qed.
 
 (* re-declaring a name with other column types is NOT a re-declaration for the HIR: both identities survive (two struct
    fields of one name: rustc rejects the expansion) *)
